@@ -4,6 +4,7 @@ Model: YouVerif/C10/Model.lean (hand-written, tied to core/state by the correspo
 `P : Prim` (Keccak-256 and the secure-trie root function) is uninterpreted throughout.
 -/
 import YouVerif.C10.Proofs
+import YouVerif.C10.ProofsInv
 namespace YouVerif.C10
 
 /-! ## 1. roots are a function of content -/
@@ -109,11 +110,87 @@ theorem flush_depends_on_objects_only (P : Prim) (del : Bool) (s₁ s₂ : St) (
     rw [iroot_acct_get, iroot_acct_get, ho, ho2]
     simp [hb a ho]
 
-/-! ## 4. commit, then reopen from the three roots -/
+/-! ## 4. every reachable state is coherent -/
 
--- (section rewritten below once the whole-history theorems are in place)
+/-- Every state reached from the empty state by any operation sequence (writes, Finalise, IntermediateRoot, Commit,
+Copy, Commit+New in any order) satisfies the cache-coherence invariants: a clean live account / validator / staking
+record is exactly what its trie holds, the pending relationships agree with their leaf, every leaf without a live object
+is the encoding of an object whose storage trie, code and delegation list are in the content-addressed database.
+(Proved operation by operation: `InvA_step`, `InvVSR_step`.) -/
+theorem reachable_coherent (P : Prim) (ops : List Op) :
+    CohA P (run P {} ops) ∧ CohV (run P {} ops) ∧ CohS (run P {} ops) ∧ CohR (run P {} ops) ∧ InvA P (run P {} ops) :=
+  have hA := InvA_run P ops (InvA_empty P)
+  have hV := InvVSR_run P ops InvVSR_empty
+  ⟨hA.a1, hV.cv, hV.cs, hV.cr, hA⟩
 
-/-! ## 5. a copy is equal to and independent of the original (value semantics) -/
+/-- `flush_depends_on_objects_only` for all histories, without coherence hypotheses: two operation sequences that end
+with the same (finalised) live objects and the same untouched leaves flush to the same account content and root. -/
+theorem flush_depends_on_objects_only_reachable (P : Prim) (del : Bool) (ops₁ ops₂ : List Op)
+    (hv : ∀ a, aget (finalise del (run P {} ops₁)).accts a = aget (finalise del (run P {} ops₂)).accts a)
+    (hb : ∀ a, aget (finalise del (run P {} ops₁)).accts a = none → cget (run P {} ops₁).t.acct a = cget (run P {} ops₂).t.acct a) :
+    (rootsOf P (iroot P del (run P {} ops₁)).t).root = (rootsOf P (iroot P del (run P {} ops₂)).t).root := by
+  have h := flush_depends_on_objects_only P del _ _ (reachable_coherent P ops₁).1 (reachable_coherent P ops₂).1 hv hb
+  simp [rootsOf, norm_ext h]
+
+/-! ## 5. commit, then reopen from the three roots -/
+
+/-- two different contents under one trie root, or two different byte strings under one hash -/
+def Collision (P : Prim) : Prop :=
+  (∃ c₁ c₂ : Content, c₁ ≠ c₂ ∧ P.root c₁ = P.root c₂) ∨ (∃ b₁ b₂ : Bytes, b₁ ≠ b₂ ∧ P.H b₁ = P.H b₂)
+
+/-- **Reopen equality, for every history.**  After any operation sequence from the empty state and a `Commit`, `New` from
+the three returned roots succeeds and the reopened state shows exactly what the live object shows — accounts with
+storage, code, delegation balance and delegation list, validators, statistics, withdraw queue, staking records, pending
+relationships (`obs`, the full enumeration) — **or a hash / trie-root collision exists**.  No injectivity axiom.
+Visible side conditions: the hash never returns the empty string (Keccak returns 32 bytes), and every value stored in the
+tries and the blob store is shorter than 2^64 bytes (the size bound of C14's RLP round trip `decode_encode`, which is
+used here through `dec_enc`; nothing else is assumed about the codec). -/
+theorem reopen_eq (P : Prim) (ops : List Op) (del : Bool) (hlen : ∀ b, P.H b ≠ [])
+    (hsz : ∀ b ∈ storedValues (commit P del (run P {} ops)), b.length < 2 ^ 64) :
+    (∃ s', openSt (commit P del (run P {} ops)).db (roots P (commit P del (run P {} ops))) = some s' ∧
+        obs P s' = obs P (commit P del (run P {} ops))) ∨ Collision P := by
+  by_cases hc : Collision P
+  · exact Or.inr hc
+  · left
+    have hi : Inj P := by
+      refine ⟨?_, ?_⟩
+      · intro c₁ c₂ h
+        apply Classical.byContradiction
+        intro hne
+        exact hc (Or.inl ⟨c₁, c₂, hne, h⟩)
+      · intro b₁ b₂ h
+        apply Classical.byContradiction
+        intro hne
+        exact hc (Or.inr ⟨b₁, b₂, hne, h⟩)
+    exact reopen_obs P del _ (InvA_run P ops (InvA_empty P)) (InvVSR_run P ops InvVSR_empty) hi hlen hsz
+
+/-- the validator-trie and staking-trie part needs neither collision-freeness nor the hash: every validator and staking
+record, the statistics, the queue and the relationships of the reopened state are the live ones, for every history -/
+theorem reopen_eq_validators_records (P : Prim) (ops : List Op) (del : Bool)
+    (hsz : ∀ b ∈ storedValues (commit P del (run P {} ops)), b.length < 2 ^ 64) :
+    openSt (commit P del (run P {} ops)).db (roots P (commit P del (run P {} ops))) = some (reopened (commit P del (run P {} ops))) ∧
+    (∀ a, getVal (reopened (commit P del (run P {} ops))) a = getVal (commit P del (run P {} ops)) a) ∧
+    (∀ k, getSRec (reopened (commit P del (run P {} ops))) k = getSRec (commit P del (run P {} ops)) k) := by
+  have hV := InvVSR_run P ops InvVSR_empty
+  have hdec : ∀ b ∈ storedValues (commit P del (run P {} ops)), DecOK b := fun b hb => decOK_of_small b (hsz b hb)
+  have hget : ∀ (c : Content) (k : Bytes), (∀ b ∈ c.map (·.2), b ∈ storedValues (commit P del (run P {} ops))) → DecOK (cget c k) := by
+    intro c k hc
+    rcases cget_mem_or_nil c k with h | h
+    · rw [h]; exact decOK_nil
+    · exact hdec _ (hc _ h)
+  refine ⟨?_, ?_, ?_⟩
+  · exact reopen_loads P del _ hV.cr (hdec _ (by simp [storedValues])) (hdec _ (by simp [storedValues]))
+      (hdec _ (by simp [storedValues])) (hdec _ (by simp [storedValues]))
+  · intro a
+    exact reopen_getVal P del _ (fun a => hget _ a (fun b hb => by simp [storedValues, hb])) hV.cv (reopened (commit P del (run P {} ops))) rfl rfl a
+  · intro k
+    exact reopen_getSRec P del _ (fun k => hget _ k (fun b hb => by simp [storedValues, hb])) hV.cs (reopened (commit P del (run P {} ops))) rfl rfl k
+
+/-- test (non-vacuity): a hash that never returns the empty string exists; the size condition is about concrete data
+(2^64 bytes = 16 EiB per stored value) and holds of every state a machine can hold -/
+example : ∃ P : Prim, ∀ b, P.H b ≠ [] := ⟨⟨fun _ => [0], fun _ => []⟩, fun _ => by simp⟩
+
+/-! ## 6. a copy is equal to and independent of the original (value semantics) -/
 
 /-- On the model `Copy` is the identity and states are values: whatever is done to the original afterwards, the copy
 shows and flushes to what the original showed and would have flushed to at the copy point, and vice versa.  (That the
